@@ -18,6 +18,7 @@ type Profile struct {
 	W           map[string]int // op weights
 	PBurst      float64
 	PBlock      float64
+	PFocus      float64 // share of the blocks whose requests all meet on one entity / component / action
 	BlockOps    []string
 	PNoPose     float64 // pose/entity_add without a pose sub-message
 	PClose      float64
@@ -396,6 +397,9 @@ func GenHistory(seed uint64, p *Profile) *Scenario {
 					continue
 				}
 			}
+			if p.PFocus > 0 && r.Bool(p.PFocus) && g.focusBlock(lj, 2+r.Intn(3)) {
+				continue
+			}
 			g.nextBlk++
 			perm := r.Perm(len(lj))
 			used := 0
@@ -468,6 +472,75 @@ func GenHistory(seed uint64, p *Profile) *Scenario {
 	sc := &Scenario{Prop: p.Name, Family: "history", Seed: seed, Steps: g.steps}
 	sc.World = genWorld(seed, r, p)
 	return sc
+}
+
+// focusBlock: 2-4 members of one session issue, at the same instant, requests that all concern
+// one entity (owned by the first of them), one component type and one action name: the owner
+// deletes it, leaves or changes it while the others attach, change, read or detach things.
+func (g *genState) focusBlock(lj []int, k int) bool {
+	r := g.r
+	perm := r.Perm(len(lj))
+	oc := lj[perm[0]]
+	var cs []int
+	for _, pi := range perm {
+		if g.joined[lj[pi]] == g.joined[oc] && len(cs) < k {
+			cs = append(cs, lj[pi])
+		}
+	}
+	if len(cs) < 2 {
+		return false
+	}
+	g.nextBlk++
+	ei := r.Intn(2)
+	typ := Ref{K: "reg", I: r.Intn(3)}
+	name := []string{"open", "spin"}[r.Intn(2)]
+	for i, bc := range cs {
+		ent := Ref{K: "of", I: oc*8 + ei}
+		var menu []string
+		var w []int
+		if i == 0 {
+			ent = Ref{K: "own", I: ei}
+			menu, w = []string{"entity_delete", "close", "switch", "pose", "comp_add", "comp_delete", "comp_update", "action", "asset_add"}, []int{30, 14, 6, 8, 8, 8, 8, 10, 8}
+		} else {
+			menu, w = []string{"comp_add", "comp_delete", "comp_update", "comp_list", "action", "pose", "asset_add", "entity_delete", "joiner", "subscribe", "unsubscribe"}, []int{18, 14, 14, 8, 22, 4, 3, 3, 6, 4, 4}
+		}
+		op := g.pick(menu, w)
+		var st Step
+		switch op {
+		case "close":
+			st = Step{Conn: bc, Op: "close"}
+			g.dead[bc] = true
+			g.joined[bc] = ""
+		case "switch":
+			st = Step{Conn: bc, Op: "join", Sess: g.sessName()}
+			g.joined[bc] = st.Sess
+		case "joiner":
+			nc, ok := g.freshConn()
+			if !ok {
+				continue
+			}
+			st = Step{Conn: nc, Op: "join", Sess: g.joined[oc]}
+			g.joined[nc] = st.Sess
+		default:
+			st = g.makeOp(bc, op)
+			st.NoPose = false
+			st.Variant = ""
+			switch op {
+			case "entity_delete", "pose", "asset_add":
+				st.Ent = ent
+			case "comp_add", "comp_delete", "comp_update":
+				st.Ent, st.Typ = ent, typ
+			case "comp_list", "subscribe", "unsubscribe":
+				st.Typ = typ
+			case "action":
+				st.Ent, st.Name = ent, name
+				st.TSKind = g.pick([]string{"now", "equal", "older", "older_ns", "future", "far_future"}, []int{30, 10, 20, 10, 20, 10})
+			}
+		}
+		st.Block = g.nextBlk
+		g.steps = append(g.steps, st)
+	}
+	return true
 }
 
 func genWorld(seed uint64, r *simrt.Rand, p *Profile) WorldCfg {
